@@ -294,7 +294,11 @@ func doRenew(kind string, der []byte, proof *protocol.ProofOfWork) {
 	}
 	r.Emit(strings.Join([]string{"renew", state, hlib.B(caOK), hlib.HexS(cn), xver, before, hlib.Hex(proof.GetPubKey()), certKey}, " "), res)
 	r.Case("renew" + kind + hlib.Hex(der[:min(len(der), 64)]) + hlib.Hex(proof.GetSignature()))
-	r.Count("renew:" + kind + ":" + strings.Join(strings.Split(res, ",")[:min(2, len(strings.Split(res, ",")))], ","))
+	if strings.HasPrefix(res, "ok,") {
+		r.Count("renew:" + kind + ":ok")
+	} else {
+		r.Count("renew:" + kind + ":" + res)
+	}
 }
 
 // certificate signed by `issuer` with full control over the template
